@@ -95,6 +95,13 @@ func (fr *Frame) baseNames(cur *State) map[string]tval {
 		names[k] = tval{t: e.val, ty: e.typ}
 	}
 	if fr.isRoot {
+		for alias, idx := range fr.u.paramAliasIdx {
+			if idx < len(fr.fn.Params) {
+				if t, ok := fr.regs[fr.fn.Params[idx]]; ok {
+					names[alias] = tval{t: t, ty: fr.fn.Params[idx].Type()}
+				}
+			}
+		}
 		for alias, real := range fr.u.paramAlias {
 			if v, ok := names[real]; ok {
 				if _, clash := names[alias]; !clash {
